@@ -139,6 +139,18 @@ RUNLOOP_PINS = [
     "workflow_workflow_loopState_getLastError", "workflow_workflow_loopState_reportError",
 ]
 
+def mon_c08_evalpos(case, verdict, chk):
+    """no 'bug:' consistency error, whatever run-time value reaches whatever position (the C07 fault x source x position
+    matrix: valid workflow inputs and step outputs only, so every case is inside C08's quantifier)"""
+    res = case.get("result") or {}
+    if "bug:" in (res.get("err") or "") or "bug" in (res.get("err_class") or ""):
+        chk.violation("C08:bug-error:" + str(case.get("position", "?")), "internal consistency error for a valid input: %s" % (res.get("err") or "")[:300],
+                      {"kind": "impl-counterexample", "case": {k: v for k, v in case.items() if k not in ("key",)}})
+
+
+import props_c07 as _c07
+S_EVALPOS = dict(_c07.STREAM, monitor=mon_c08_evalpos)
+
 SPEC = {
     "module": "Arca.Props.C08",
     "theorems": [
@@ -151,7 +163,7 @@ SPEC = {
         T + "struct_output_needs_serialization",
     ],
     "pins": RUNLOOP_PINS + ["workflow_workflow__serializedOutput"],
-    "streams": [S_LOOP, S_ENGINE, S_TYPED],
+    "streams": [S_LOOP, S_ENGINE, S_TYPED, S_EVALPOS],
     "rule": ("run-loop histories generated by scripted providers over generated workflows (distinct = distinct workflow text + "
              "event history; non-trivial = at least one step does not end in success); whole-engine runs of generated workflows with "
              "the scripted deployer/plugin (distinct = distinct workflow text + input; non-trivial = some step does not succeed or more "
